@@ -5,6 +5,8 @@
 //verif:replace@C13g (*regexp.Regexp).Match = c13gMatch
 //verif:replace@C13g regexp.Compile = c13gCompile
 //verif:replace@C13d (*github.com/mimecast/dtail/internal/user/server.User).HasFilePermission = c13dPerm
+//verif:replace@C13h path/filepath.Glob = c13dGlob
+//verif:replace@C13h (*github.com/mimecast/dtail/internal/user/server.User).HasFilePermission = c13dPerm
 
 package handlers
 
@@ -58,5 +60,47 @@ func VerifC13dEndedSession(k int) {
 	verifrt.Sleep(10 * time.Second)
 	verifrt.Assert(c13Started == 0, "a read of a session that has ended was started")
 	verifrt.Assert(len(c13Lim) == 0, "a session that has ended holds a limiter slot")
+	verifrt.Reach("checked")
+}
+
+// VerifC13hMapSession: a mapreduce session (map command, then as many cat
+// commands as the cat limit allows at once, plus one more) on an otherwise
+// idle server: every slot is held by a file being read and by nothing else -
+// the reads within the limit all start, the extra one waits and proceeds when
+// one of them finishes.
+func VerifC13hMapSession(limit int) {
+	h, _ := c13Setup(limit, omode.CatClient)
+	c13Hold = 30 * time.Second
+	go func() {
+		p := make([]byte, 4096)
+		for {
+			if _, err := h.Read(p); err != nil {
+				return
+			}
+		}
+	}()
+	sent := make(chan struct{})
+	go func() { // (the session's commands arrive one after another)
+		cmds := []string{"map select count(x) from T"}
+		for i := 0; i <= limit; i++ {
+			cmds = append(cmds, "cat /var/log/f"+string(rune('0'+i))+" regex:noop ")
+		}
+		for _, cmd := range cmds {
+			h.Write([]byte("protocol 4.1 base64 " + base64.StdEncoding.EncodeToString([]byte(cmd)) + ";"))
+		}
+		close(sent)
+	}()
+	verifrt.Sleep(10 * time.Second)
+	select {
+	case <-sent:
+	default:
+		verifrt.Assert(false, "the server stopped taking the commands of a mapreduce session although slots are free")
+	}
+	verifrt.Assert(c13Started == limit, "reads within the cat limit of an idle server did not all start (or more than the limit started)")
+	verifrt.Assert(len(c13Lim) == limit, "slots are held by something other than files being read")
+	verifrt.Sleep(25 * time.Second) // the first reads finish (30 s each)
+	verifrt.Assert(c13Started == limit+1, "a waiting read did not proceed when a running read finished")
+	verifrt.Sleep(40 * time.Second)
+	verifrt.Assert(len(c13Lim) == 0, "slots are still held after all reads of the session finished")
 	verifrt.Reach("checked")
 }
